@@ -424,6 +424,14 @@ const EXPRS: &[&str] = &[
     "p(/* ) */ q)",
     "s.replace(\"}\", \"{\")",
     "vec![1, 2]",
+    // fragments spanning several lines: line breaks, indentation and blank lines inside a string
+    // literal or a group are part of the fragment
+    "\"Usage:\n    prog [options]\n\n      -v   verbose\"",
+    "f(\n    a,\n    b\n)",
+    "g(\"two  spaces\ttab \", x)",
+    "h(a /* multi\n   line */, \"x\r\ny\")",
+    "m![\n  1,\n\n  2\n]",
+    "t.get(\"k\n\")[ 0 ]",
 ];
 const PAREN_INNER: &[&str] = &[
     "a + b",
